@@ -417,7 +417,14 @@ func writerResetDifferential(hist []int, suffix []int) (sig, what string) {
 	if xa.Verdict != xb.Verdict {
 		return "Writer: after Reset the object behaves differently from a new one with the same options (hang/leak)", histString(wAlphabet, full)
 	}
+	if len(a.obs)-len(hist) != len(b.obs) {
+		// one of the two runs stopped early (a call that panicked or never returned)
+		return "Writer: after Reset the object behaves differently from a new one with the same options (a call panics or hangs on one of them only)", fmt.Sprintf("%s: %d/%d calls completed; verdicts %q/%q", histString(wAlphabet, full), len(a.obs)-len(hist), len(b.obs), xa.Verdict, xb.Verdict)
+	}
 	for i := range suffix {
+		if len(hist)+i >= len(a.obs) || i >= len(b.obs) {
+			break
+		}
 		oa, ob := a.obs[len(hist)+i], b.obs[i]
 		if oa.n != ob.n || (oa.err == nil) != (ob.err == nil) || oa.panic != ob.panic {
 			return "Writer: after Reset a call returns something else than on a new Writer with the same options", fmt.Sprintf("%s: %s n=%d/%d err=%v/%v", histString(wAlphabet, full), wAlphabet[suffix[i]], oa.n, ob.n, oa.err, ob.err)
